@@ -8,7 +8,7 @@ git worktree add --detach /tmp/verif_head HEAD -q || exit 3
 for wt in "$@"; do
   [ -f $wt/seed.patch ] || { echo "$wt: no seed.patch"; continue; }
   pid=$(python3 -c "import json;print(json.load(open('$wt/seed.json'))['property'])" 2>/dev/null) || { echo "$wt: no seed.json"; continue; }
-  n=$(ls -d seeded/$pid-* 2>/dev/null | wc -l)
+  n=$(ls -d seeded/$pid-* seeded/rejected/$pid-* 2>/dev/null | wc -l)
   letter=$(python3 -c "print('abcdefghijklmnop'[$n])")
   name=$pid-$letter
   (cd /repo && git apply $wt/seed.patch) || { echo "$wt: patch does not apply"; continue; }
